@@ -63,7 +63,7 @@ class C13(object):
                    'renaming targets/replacements are identifier-shaped non-keywords',
                    'the reduction caller removes all blanks from the rewritten equation: expressions with keyword '
                    'operators or string literals (not valid in equation blocks anyway) are not fed to that sub-check']
-    required_counters = ('list_tokens.judged', 'lookup.judged', 'replace_token.judged', 'eval.judged', 'block_rename.judged', 'reduction_rename.judged',
+    required_counters = ('list_tokens.judged', 'lookup.judged', 'replace_token.judged', 'eval.judged', 'block_rename.judged', 'reduction_rename.judged', 'reduction_rename.targeted',
                          'insitu.replace_token_from_lookup.post_evaluated')
 
     def n_cases(self, tier):
